@@ -263,7 +263,7 @@ func (w *World) HTTP(method, url string, body []byte) (int, []byte, error) {
 		return 0, nil, err
 	}
 	if res.Wedged {
-		return 0, nil, &WedgeError{Stacks: res.Stacks, What: method + " " + url}
+		return 0, nil, w.wedgeOrHung(method+" "+url, res.Stacks)
 	}
 	r := res.Resps[0]
 	return r.Status, r.Body, nil
@@ -279,7 +279,7 @@ func (w *World) Seq(reqs []proto.Req) ([]proto.Resp, error) {
 		return nil, err
 	}
 	if res.Wedged {
-		return nil, &WedgeError{Stacks: res.Stacks, What: "seq " + reqs[0].Method + " " + reqs[0].URL}
+		return nil, w.wedgeOrHung("seq "+reqs[0].Method+" "+reqs[0].URL, res.Stacks)
 	}
 	return res.Resps, nil
 }
@@ -300,7 +300,7 @@ func (w *World) RPC(body []byte, args ...string) (int, string, error) {
 		return 0, "", err
 	}
 	if res.Wedged {
-		return 0, "", &WedgeError{Stacks: res.Stacks, What: "rpc " + strings.Join(args, " ")}
+		return 0, "", w.wedgeOrHung("rpc "+strings.Join(args, " "), res.Stacks)
 	}
 	r := res.Resps[0]
 	if r.Status != 200 {
@@ -315,6 +315,28 @@ type WedgeError struct {
 }
 
 func (e *WedgeError) Error() string { return "wedged: " + e.What }
+
+// HungError: one request never completed, but the server still serves others.
+type HungError struct {
+	What   string
+	Stacks string
+}
+
+func (e *HungError) Error() string { return "request hung (server still serving): " + e.What }
+
+// wedgeOrHung classifies a request that could not be completed: if a following
+// trivial request (taking the metadata locks and reading the store) is still
+// served the server is alive and only that request hangs.
+func (w *World) wedgeOrHung(what, stacks string) error {
+	res, err := w.Do(proto.Cmd{Op: "batch", Mode: "return", Reqs: []proto.Req{
+		{Client: "probe", Kind: "http", Method: "GET", URL: "/api/repos/info"},
+		{Client: "probe2", Kind: "http", Method: "GET", URL: "/api/server/types"}}})
+	if err == nil && !res.Wedged && len(res.Resps) == 2 && res.Resps[0].Status == 200 && res.Resps[1].Status == 200 {
+		w.Stats.Probe("request-hung")
+		return &HungError{What: what, Stacks: stacks}
+	}
+	return &WedgeError{What: what, Stacks: stacks}
+}
 
 func (w *World) Barrier() error {
 	res, err := w.Do(proto.Cmd{Op: "barrier"})
